@@ -27,6 +27,7 @@ def c07_projects(quick: bool, rng: random.Random) -> List[Dict[str, Any]]:
         + list(families.t7_moved_class_with_moved_base()) + list(families.t8_prefix_roots()) \
         + list(families.t9_reexport_while_origin_processing()) + list(families.t11_cycle_rename_and_consumer_first()) \
         + list(families.t14_two_roots_facade()) + list(families.t10_double_reexport()) + list(families.t16_type_checking_cycle())
+    ps += [p for p in families.rnd2_corpus(quick) if P.expected_reexports(p) or P.expected_reexports(p, multi=True)]
     if not quick:
         extra = [families.random_project(rng, rng.randint(3, 5)) for _ in range(300)]
         ps += [p for p in extra if P.expected_reexports(p)][:120]
